@@ -15,6 +15,10 @@ import GridVerif.Gen.RTransform
     C03.static <Class> <method> <n> p₁ … pₙ <m> a₁ … aₘ              static helper (`find_parameter`): scalar arguments, array
     C03.domain <inv 0|1> <Class> <trim 0|1> <n> p₁ … pₙ              `tf.domain` and `tf.codomain` (4 floats; `inv`: of InverseRTransform(tf))
 
+    C03.warns <Class> <method> <trim 0|1> <n> p₁ … pₙ <x>           does the method body issue its warning at `x`?  `ok 0|1 <Category> <stacklevel>`; `ok none`: no warning in the body
+    C03.setb <Class> <has_b 0|1> <b> <x_max>                         `set_maximum_parameter_b` on an object whose attribute is `b` (`None` when has_b = 0) with `np.max(x) = x_max`:
+                                                                     `ok <b after the call>` | `value-error <b after the rejected call>` (`none` = `None`)
+
   `size` is the number of elements of the array argument (only `HyperbolicRTransform` looks at it).
   Answers: `ok <float>` | `ok 0|1` | `value-error` | `zero-division-error` | `index-error`.
 -/
@@ -105,6 +109,29 @@ def handle : List String → Option String
     let (d, c) := if inv then (InverseRTransform.domainExt d c, InverseRTransform.codomainExt d c) else (d, c)
     pure ("ok " ++ sFloat (extFloat d.1) ++ " " ++ sFloat (extFloat d.2) ++ " " ++ sFloat (extFloat c.1) ++ " "
       ++ sFloat (extFloat c.2))
+  | "C03.warns" :: cls :: meth :: trim :: rest => do
+    let trim ← pBool trim
+    let (ps, tl) ← pVec pFloat rest
+    let [x] := tl | none
+    let x ← pFloat x
+    let _ ← opsOf cls ps trim
+    match warnKindOf cls meth, warnsOf cls meth ps trim x with
+    | some (cat, level), some w => pure ("ok " ++ (if w then "1 " else "0 ") ++ cat ++ " " ++ toString level)
+    | none, none => pure "ok none"
+    | _, _ => none
+  | ["C03.setb", cls, hasb, b, xmax] => do
+    let hasb ← pBool hasb
+    let b ← pFloat b
+    let xmax ← pFloat xmax
+    let b0 : Option Float := if hasb then some b else none
+    let after ← setbOf cls b0 xmax
+    let shown := match after with
+      | some y => sFloat y
+      | none => "none"
+    if setbRaisesOf cls b0 xmax == some true then do
+      let tag ← setbRaisesKindOf cls
+      pure (tag ++ " " ++ shown)
+    else pure ("ok " ++ shown)
   | ["C03.convinf", "array", x] => do
     let x ← pFloat x
     pure ("ok " ++ sFloat (BaseTransform.convert_inf x))
